@@ -1118,6 +1118,23 @@ impl World {
 		self.pump(n);
 		cnt
 	}
+	pub fn process_events_refusing(&mut self, n: usize, refuse: &dyn Fn(&Event) -> bool) -> bool {
+		let (evs, refused) = self.nodes[n].events_refusing(refuse);
+		self.drain_taps();
+		if refused {
+			self.obs.push_back(Obs::Api { step: self.step, node: n, call: "event handler refused a chosen event".into(), result: String::new() });
+		}
+		for e in evs {
+			self.handle_event(n, e);
+		}
+		let mevs = self.nodes[n].monitor_events();
+		self.drain_taps();
+		for e in mevs {
+			self.handle_event(n, e);
+		}
+		self.pump(n);
+		refused
+	}
 	pub fn claim(&mut self, k: usize) {
 		let c = self.claimable.remove(k);
 		if let Some(p) = c.preimage {
